@@ -163,6 +163,11 @@ def rules_get_frame(ctx, prefix="R2", F=None):
                    trace_of(p), what="plain-frame-wrong")
     ctx.ob(prefix, "get_frame/override-row-exists", n_over == 1, "exactly one row yields the override (%d)" % n_over,
            b["span"], what="override-row-missing")
+    # the helper is only as good as its callers: the frame pair the evaluation interpolates between must come through it
+    # with the caller's flag (a second helper that hands out the override unconditionally would bypass the scope) - decided
+    # on the inlined paths of value_at by the frame-pair rule (C01/R2)
+    from rules import c01
+    c01.rule_lookup(ctx, F, prefix, prefix)
 
 
 def rules_loop_state(ctx, prefix="R3", tab=None):
